@@ -1579,6 +1579,8 @@ class Interp:
                 return VOID
             if name == "value_or":
                 return z3.If(v.has, v.value, ctx.rv(args[0])) if isinstance(v.value, z3.ExprRef) else None
+        if isinstance(v, Closure) and name.startswith("operator ") and "(*)" in name:
+            return v          # a captureless lambda converted to a function pointer
         if name.startswith("operator basic_string_view") and isinstance(v, z3.ExprRef) and z3.is_int(v):
             return v          # strings are opaque ids: std::string -> std::string_view keeps the id
         raise Gap("unclassified method %s on %r (line %s)" % (name, obj, extract.line_of(n)))
